@@ -170,7 +170,7 @@ package wmpt
 //@   requires t != nil
 
 //@ func (*WeightedMerkleTrie).deserializeTrie returns (node, err)
-//@   props C15
+//@   props C15 C12
 //@   mode wrap
 //@   requires ind != nil && *ind >= 0 && *ind <= len(pairs)
 //@   ensures *ind >= old(*ind) && *ind <= len(pairs)                             #ind-monotone
@@ -180,7 +180,7 @@ package wmpt
 //@   loop 1 invariant *ind > old(*ind) && *ind <= len(pairs)                     #ind-advanced
 
 //@ func (*WeightedMerkleTrie).Deserialize returns (err)
-//@   props C15
+//@   props C15 C12
 //@   mode wrap
 //@   requires t != nil
 
